@@ -31,7 +31,18 @@ Inductive dumps := DE | DC (d : cdump) (t : dumps).
 (** [Crash pre rs]: dump before the target; dumps after crash at k = 0, 1, ..., n and reopen *)
 Inductive cinfo := NoCrash | Crash (pre : cdump) (rs : dumps).
 Inductive csteps := TE | TC (ops : cops) (ci : cinfo) (t : csteps).
-Inductive case := CCrash (base : nl) (cap : N) (univ : univs) (st : csteps).
+(** BIG operations (thousands of index operations in one batch): the history is
+    described by a generator descriptor, not listed — [n] chunks with the
+    addresses [big_addr 0 .. n-1]: pinned upload of all of them in one call,
+    one [Set(ModeSetSync)] of all, the first two pinned once more, one
+    [Set(ModeSetRemove)] of all.  Observed, per operation: the number of
+    driver-level writes, and a summary of the dump after crash+reopen at every
+    crash point (sizes of the four indexes, gcSize, total of the pin counters,
+    total of the GCounters: 7 numbers per crash point). *)
+Inductive bigobs := GE | GO (cnt : N) (sums : nl) (t : bigobs).
+Inductive case :=
+| CCrash (base : nl) (cap : N) (univ : univs) (st : csteps)
+| CBig (n : N) (obs : bigobs).
 
 Fixpoint cops_list (univ : list addr) (l : cops) : list op :=
   match l with OE => [] | OC o t => tr_op univ o :: cops_list univ t end.
@@ -82,9 +93,57 @@ Fixpoint first_bad (po : addr -> N) (cap : N) (univ : list addr) (s ob : state) 
       end
   end.
 
+(** *** big operations *)
+Definition big_addr (i : N) : addr := [1; i / 256; i mod 256; 9].
+Definition big_addrs (n : N) : list addr := map (fun i => big_addr (N.of_nat i)) (seq 0 (N.to_nat n)).
+Definition big_cap : N := 1000000.
+Definition big_hist (n : N) : list op :=
+  [ OPut 10 PUploadPin None (map (fun a => (a, [nth 2 a 0])) (big_addrs n));
+    OSet 20 SSync None (big_addrs n);
+    OSet 30 SPin None [big_addr 0; big_addr 1];
+    OSet 40 SRemove None (big_addrs n) ].
+Definition summary (s : state) : list N :=
+  [ N.of_nat (length (s_data s)); N.of_nat (length (s_access s)); N.of_nat (length (s_gc s));
+    N.of_nat (length (s_pin s)); s_gcsize s;
+    fold_left (fun acc kv => acc + snd kv) (s_pin s) 0; gc_sum (s_gc s) ].
+Fixpoint take_n {A} (k : nat) (l : list A) : list A * list A :=
+  match k, l with
+  | S k', x :: t => let '(a, b) := take_n k' t in (x :: a, b)
+  | _, _ => ([], l)
+  end.
+(** crash points k = 0..cnt of one operation against the observed summaries;
+    [gs] = the operation's write groups, computed once: the store after a crash
+    at k is [reopen (apply_groups s (firstn k gs))] = [recovered po k s o] *)
+Fixpoint check_sums (s : state) (gs : list (list write)) (k : nat) (fuel : nat) (sums : list N) : option why :=
+  match fuel with
+  | O => match sums with [] => None | _ => Some (BadCount (length sums)) end
+  | S f =>
+      let '(obs, rest) := take_n 7 sums in
+      let m := fst (reopen (apply_groups s (firstn k gs))) in
+      if list_eqb N.eqb (summary m) obs then check_sums s gs (S k) f rest
+      else Some (BadCrash k (set_data (set_access (set_pin m []) []) []))   (* the counters; the big indexes are not printed *)
+  end.
+(** the next operation starts from [apply_groups s gs], which is the C11 step on
+    every persisted component (theorem C14_all_groups_is_the_operation; no
+    collection is running in these histories) *)
+Fixpoint big_bad (po : addr -> N) (s : state) (ops : list op) (obs : bigobs) (i : N) : option (N * why) :=
+  match ops, obs with
+  | [], GE => None
+  | o :: rest, GO cnt sums t =>
+      let gs := groups po s o in
+      let n := length gs in
+      if negb (Nat.eqb n (N.to_nat cnt)) then Some (i, BadCount n)
+      else match check_sums s gs 0 (S n) (nl_list sums) with
+           | Some w => Some (i, w)
+           | None => big_bad po (apply_groups s gs) rest t (i + 1)
+           end
+  | _, _ => Some (i, BadCount 0)
+  end.
+
 Definition run_case (c : case) :=
   match c with
   | CCrash base cap univ st => first_bad (po_of (nl_list base)) cap (univ_list univ) init init st 0
+  | CBig n obs => big_bad (po_of [0; 0; 0; 0]) init (big_hist n) obs 0
   end.
 Definition check_case (c : case) : bool := match run_case c with None => true | Some _ => false end.
 (** on a mismatch: (index of the target step, what the model says) *)
